@@ -1588,9 +1588,10 @@ def evaluate__function_name(self: XPathFunction, context: ta.ContextType = None)
     if self.context is not None:
         context = self.context
 
-    if isinstance(self[0], XPathFunction):
-        func = self[0]
-    else:
+    func = self[0][1] if self[0].symbol == ':' else self[0]
+    if not isinstance(func, XPathFunction) or \
+            func.symbol != 'function' and not func.is_reference():
+        # an expression that evaluates to a function item (also a function call)
         func = self.get_argument(context)
 
     if not isinstance(func, XPathFunction):
@@ -1602,11 +1603,12 @@ def evaluate__function_name(self: XPathFunction, context: ta.ContextType = None)
 
 @method(function('function-arity', nargs=1, sequence_types=('function(*)', 'xs:integer')))
 def evaluate__function_arity(self: XPathFunction, context: ta.ContextType = None) -> int:
-    if isinstance(self[0], XPathFunction):
-        return self[0].arity
-
     func: XPathFunction
-    func = self.get_argument(self.context or context, cls=XPathFunction, required=True)
+    func = self[0][1] if self[0].symbol == ':' else self[0]
+    if not isinstance(func, XPathFunction) or \
+            func.symbol != 'function' and not func.is_reference():
+        # an expression that evaluates to a function item (also a function call)
+        func = self.get_argument(self.context or context, cls=XPathFunction, required=True)
     return func.arity
 
 
